@@ -150,6 +150,15 @@ pub fn run(ctx: &Ctx, rep: &mut Report) {
     cfg.runes = true;
     cfg.sats = rng.chance(1, 3);
     cfg.addresses = rng.chance(1, 3);
+    // a server without an inscription index (runes only): the wallet then needs
+    // the address or the sat index, and only runic outputs can be protected
+    if rng.chance(1, 4) {
+      cfg.inscriptions = false;
+      if !cfg.sats {
+        cfg.addresses = true;
+      }
+      rep.count("wallets_on_a_server_without_inscription_index");
+    }
     let mut lab = match Lab::new(&ctx.scratch, case, &cfg) {
       Ok(l) => l,
       Err(e) => {
